@@ -1,9 +1,13 @@
 #!/bin/bash
-# usage: seedverify.sh <worktree>   -- confirms a seeded change: baseline still passes with it, demo fails with it and passes without it
+# usage: seedverify.sh <worktree>   -- confirms a seeded change from its mutation.diff: baseline still passes with it, the demonstration
+# fails with it and passes without it.  Never uses git stash (shared between worktrees).
 wt=$1
 cd $wt || exit 2
 out=$wt/VERIFY.txt
 : > $out
+[ -f mutation.diff ] || { echo "NO mutation.diff" >> $out; exit 2; }
+git checkout -q -- src
+git apply mutation.diff || { echo "PATCH DOES NOT APPLY" >> $out; exit 2; }
 python3 - "$wt" >> $out 2>&1 <<'PY'
 import json, re, subprocess, sys
 wt = sys.argv[1]
@@ -20,12 +24,9 @@ for ln in p.stdout.splitlines():
         name = m.group(1); passed.add('fatfs::' + (name if cur == 'lib' else '%s::%s' % (cur, name)))
 missing = sorted(want - passed)
 print('BASELINE_WITH_CHANGE %d/%d missing=%s' % (len(want & passed), len(want), missing))
-demo = [l for l in p.stdout.splitlines() if 'seeded_demo' in l or (cur == 'seeded_demo')]
 PY
-echo "--- demo with change" >> $out
-cargo test --offline --test seeded_demo >> $out.demo1 2>&1; echo "DEMO_WITH_CHANGE rc=$?" >> $out
-git diff -- src > /tmp/$(basename $wt).patch
-git stash push -q -- src
-cargo test --offline --test seeded_demo >> $out.demo2 2>&1; echo "DEMO_WITHOUT_CHANGE rc=$?" >> $out
-git stash pop -q
-git diff --stat -- src | tail -1 >> $out
+cargo test --offline --test seeded_demo > $out.demo1 2>&1; echo "DEMO_WITH_CHANGE rc=$?" >> $out
+git checkout -q -- src
+cargo test --offline --test seeded_demo > $out.demo2 2>&1; echo "DEMO_WITHOUT_CHANGE rc=$?" >> $out
+git apply mutation.diff
+cp mutation.diff /tmp/$(basename $wt).patch
